@@ -105,7 +105,11 @@ func (evt *catchEvent) NextAction(ctx context.Context, flow Flow) chan IAction {
 		go evt.run(ctx, sender)
 	})
 
-	response := make(chan IAction)
+	// buffered: the node sends at most one action per waiting token and must not
+	// block when that token is gone (withdrawn by an event-based gateway or an
+	// interrupting boundary event), otherwise the node stops draining its inbox
+	// and event delivery to the whole instance blocks
+	response := make(chan IAction, 1)
 	evt.mch <- nextActionMessage{response: response, flow: flow}
 	return response
 }
